@@ -39,7 +39,7 @@ class C15(core.Property):
     driver = "drv-c15"
     lake_targets = ["HappyProofs.C15.Props", "drv-c15"]
     audit_imports = ["HappyProofs.C15.Props"]
-    lean_files = ["HappyModel/C14/*.lean", "HappyModel/C15/*.lean", "HappyProofs/C14/Basic.lean", "HappyProofs/C15/*.lean",
+    lean_files = ["HappyModel/C14/*.lean", "HappyModel/C15/*.lean", "HappyProofs/C14/*.lean", "HappyProofs/C15/*.lean",
                   "HappyModel/Proto.lean", "Driver/C15.lean"]
     theorems = []
     quick_cases = 3000
@@ -62,14 +62,16 @@ class C15(core.Property):
         "trunc_bound_lt_pending: the sequence number is pending (appended, not yet applied to a memtable) or not yet handed out, and >= 1",
     ]
     partial_theorems = {
-        "durable_survive_partial": "proved for every state (hence every crash point of every interleaving): after crash+recover a key reads the cell of "
-                                   "its last log entry that is synced and not truncated, else what the SSTable levels hold (crash_recover_read); and the flush's "
-                                   "truncation bound never reaches a pending or future sequence number (trunc_bound_lt_pending). Not proved (durable_survive_full): "
-                                   "the run invariant that every truncated entry is already in an installed SSTable that the levels' read order puts first.",
-        "no_resurrection": "not proved as a run invariant; it is the Spec clause judged on every case (a recovered value must not be superseded by a durable write "
-                           "that began after its own write completed).",
-        "no_invention": "state level: a recovered cell is the cell of a surviving log entry of that key or is held by an SSTable; that SSTable cells come from "
-                        "puts of the workload is not proved.",
+        "crash_spec (hypotheses, not gaps)": "durable_survive, no_resurrection, no_invention and recover_idempotent are proved for the model for every workload, "
+                                   "sync policy, schedule and crash index (HappyModel.C15.crash_spec / crash_spec_at_every_index: judgeCrash of the model's own "
+                                   "crash observations = none; crash_facts_run, durable_survive, no_resurrection are the same in terms of the operations of the run) "
+                                   "under explicit hypotheses: a WAL is configured (cfg.wal = some p, any policy p), InOrder (flushes install in start order), "
+                                   "DistinctPuts (operation ids and put values pairwise distinct), 2 <= max_levels. The run invariant is WInv (WalInv.lean): every "
+                                   "memtable insert is still in the log or already in an installed SSTable with sequence number <= the truncation point, and a "
+                                   "flush's bound is below every pending sequence number. Not covered by a theorem: that the implementation runs the model's "
+                                   "segments (checked by comparison on every case and every crash index).",
+        "no_invention": "state level (HappyModel.C15.no_invention): a recovered cell is the cell of a surviving log entry of that key or is held by an SSTable; "
+                        "run level: crash_facts_run gives a started put of the workload for every recovered value.",
     }
 
     def __init__(self):
@@ -172,6 +174,14 @@ THEOREMS = [
     "HappyModel.C15.recover_idempotent",
     "HappyModel.C15.recover_crash_idempotent",
     "HappyModel.C15.trunc_bound_lt_pending",
+    "HappyModel.C15.winv_step",
+    "HappyModel.C15.crash_invariants",
+    "HappyModel.C15.crash_facts_run",
+    "HappyModel.C15.durable_survive",
+    "HappyModel.C15.no_resurrection",
+    "HappyModel.C15.judgeCrash_of_facts",
+    "HappyModel.C15.crash_spec",
+    "HappyModel.C15.crash_spec_at_every_index",
 ]
 C15.theorems = THEOREMS
 PROPERTY = C15()
